@@ -18,9 +18,9 @@ type tyRef struct {
 	inner *tyRef
 }
 
-func named(n string) *tyRef    { return &tyRef{kind: 'n', name: n} }
-func listOf(t *tyRef) *tyRef   { return &tyRef{kind: 'l', inner: t} }
-func nonNull(t *tyRef) *tyRef  { return &tyRef{kind: '!', inner: t} }
+func named(n string) *tyRef   { return &tyRef{kind: 'n', name: n} }
+func listOf(t *tyRef) *tyRef  { return &tyRef{kind: 'l', inner: t} }
+func nonNull(t *tyRef) *tyRef { return &tyRef{kind: '!', inner: t} }
 func (t *tyRef) base() string {
 	for t.kind != 'n' {
 		t = t.inner
@@ -75,6 +75,9 @@ type schemaDef struct {
 	byName   map[string]*typeDef
 	query    string
 	mutation string
+	// random schemas: the arguments of the pool fields (by field name: the same on every type
+	// that has the field); non-nil also means "the schema carries the standard input types"
+	poolArgs map[string][]argDef
 }
 
 func (s *schemaDef) add(t *typeDef) { s.types = append(s.types, t); s.byName[t.name] = t }
@@ -205,6 +208,12 @@ func genSchema(r *rng.R) *schemaDef {
 		}
 		pool[i] = fieldDef{name: fmt.Sprintf("f%d", i), ty: wrapRandom(r, base, 3)}
 	}
+	s.poolArgs = map[string][]argDef{}
+	for i := range pool {
+		if a := poolArgs(r); len(a) > 0 {
+			s.poolArgs[pool[i].name] = a
+		}
+	}
 	pick := func(lo, hi int) []fieldDef {
 		n := r.Range(lo, hi)
 		if n > nPool {
@@ -283,15 +292,19 @@ type fragment struct {
 }
 
 type docGen struct {
-	s        *schemaDef
-	r        *rng.R
-	frags    []fragment // completed fragments
-	nfrag    int
-	budget   int // remaining field nodes
-	usedVars map[string]bool
-	vars     []string // available variable names
-	mShape   string   // type string the special alias "m" stands for
-	root     bool
+	s         *schemaDef
+	r         *rng.R
+	frags     []fragment // completed fragments
+	nfrag     int
+	budget    int // remaining field nodes
+	usedVars  map[string]bool
+	vars      []string // available variable names
+	mShape    string   // type string the special alias "m" stands for
+	root      bool
+	hostile   bool
+	argTexts  map[string]string      // response key / field name -> argument list
+	typed     []string               // declarations of the typed variables used as arguments
+	typedVals map[string]interface{} // their raw values (absent: no value)
 }
 
 func (g *docGen) directives() string {
@@ -371,7 +384,14 @@ func (g *docGen) selSet(scope string, depth int, fragDepth int) string {
 				}
 				alias = "m: "
 			}
-			sel := alias + f.name + g.directives()
+			// one response key, one argument list (fields under one key must have identical arguments)
+			rkey := strings.TrimSuffix(strings.TrimSpace(alias), ":") + "/" + f.name
+			argText, ok := g.argTexts[rkey]
+			if !ok || (g.hostile && g.r.Chance(1, 6)) { // hostile: differing arguments under one response key
+				argText = g.argsText(f.name)
+				g.argTexts[rkey] = argText
+			}
+			sel := alias + f.name + argText + g.directives()
 			if bt.composite() {
 				sel += " {" + g.selSet(bt.name, depth-1, fragDepth) + "}"
 			}
@@ -380,7 +400,7 @@ func (g *docGen) selSet(scope string, depth int, fragDepth int) string {
 			// (a resolver error carries both locations, the sub-selections are concatenated)
 			if g.budget > 0 && g.r.Chance(1, 5) {
 				g.budget--
-				again := alias + f.name + g.directives()
+				again := alias + f.name + argText + g.directives() // merged field nodes must have identical arguments
 				if bt.composite() {
 					again += " {" + g.selSet(bt.name, depth-1, fragDepth) + "}"
 				}
@@ -451,7 +471,8 @@ type genDoc struct {
 }
 
 func genDocument(r *rng.R, s *schemaDef, hostile bool) genDoc {
-	g := &docGen{s: s, r: r, budget: r.Range(2, 25), usedVars: map[string]bool{}, root: true}
+	g := &docGen{s: s, r: r, budget: r.Range(2, 25), usedVars: map[string]bool{}, root: true, hostile: hostile,
+		typedVals: map[string]interface{}{}, argTexts: map[string]string{}}
 	for i, n := 0, r.Intn(3); i < n; i++ {
 		g.vars = append(g.vars, fmt.Sprintf("v%d", i))
 	}
@@ -523,6 +544,10 @@ func genDocument(r *rng.R, s *schemaDef, hostile bool) genDoc {
 			out.vars[v] = nil
 			out.env[v] = nil
 		}
+	}
+	decls = append(decls, g.typed...)
+	for v, val := range g.typedVals {
+		out.vars[v] = val
 	}
 	head := ""
 	switch {
